@@ -1,6 +1,7 @@
 // Generated-file prelude: fixed imports, panic primitives re-interpreted as obligations (R5),
 // and the specifications assumed for std functions that vstd does not cover (trusted, listed
 // in every evidence file).  Nothing in this file comes from /repo.
+#![feature(allocator_api)]
 #![allow(unused_imports, dead_code, unused_variables, unused_mut, unused_macros, unreachable_code)]
 #![verifier::allow(autoderive_clone_without_spec)]
 use vstd::prelude::*;
